@@ -448,32 +448,25 @@ theorem feed_dqPlain (v : Str) : ∀ (st : LexSt) (w : Word), st.mode = .dq → 
       pushLit_pushLit]
     rfl
 
-/-- `cd wd && ` of `create_command`, for a directory of safe characters only -/
-theorem feed_cc_cdSeg (wd : Str) (hne : wd ≠ []) (hs : wd.all isSafe = true) :
+/-- `cd <shlex.quote(wd)> && ` of `create_command` (as it is since commit 1a0529c), for every directory string -/
+theorem feed_cc_cdSeg (wd : Str) :
     feed init (render cc_cd [wd]) = { out := [W kwCd, W wd, .op ['&', '&']] } := by
-  have e : render cc_cd [wd] = ['c', 'd', ' '] ++ (wd ++ [' ', '&', '&', ' ']) := by
+  have e : render cc_cd [wd] = ['c', 'd', ' '] ++ (shlexQuote wd ++ [' ', '&', '&', ' ']) := by
     simp [render, renderPiece, cc_cd, arg]
-  rw [e, feed_append, feed_kwCd, feed_append, feed_safe _ wd hne hs rfl]
+  rw [e, feed_append, feed_kwCd, feed_append, feed_shlexQuote _ _ rfl]
   exact feed_sep_andand [W kwCd] wd
 
-/-- `export K="v" && ` of `create_command`, for a value without `"`, `\`, `$`, backtick -/
-theorem feed_cc_exportSeg (k v : Str) (hk : keyOk k = true) (hv : v.all dqPlain = true) :
+/-- `export K=<shlex.quote(v)> && ` of `create_command`, for every value -/
+theorem feed_cc_exportSeg (k v : Str) (hk : keyOk k = true) :
     feed init (render cc_export [k, v]) = { out := [W kwExport, W (k ++ '=' :: v), .op ['&', '&']] } := by
   obtain ⟨hne, hs, _⟩ := (keyOk_iff k).mp hk
   have e : render cc_export [k, v]
-      = ['e', 'x', 'p', 'o', 'r', 't', ' '] ++ (k ++ (['='] ++ (['"'] ++ (v ++ (['"'] ++ [' ', '&', '&', ' ']))))) := by
+      = ['e', 'x', 'p', 'o', 'r', 't', ' '] ++ (k ++ (['='] ++ (shlexQuote v ++ [' ', '&', '&', ' ']))) := by
     simp [render, renderPiece, cc_export, arg]
   rw [e, feed_append, feed_kwExport, feed_append, feed_safe _ k hne hs rfl, feed_append,
-    feed_safe _ ['='] (by simp) (by decide) rfl, feed_append]
-  have hq : feed (({ out := [W kwExport] } : LexSt).pushLit k |>.pushLit ['=']) ['"']
-      = { mode := .dq, cur := some { cs := k ++ ['='] }, out := [W kwExport], bad := false } := by
-    simp [feed, step, stepUnq, LexSt.pushLit, LexSt.quoteMark]
-  rw [hq, feed_append, feed_dqPlain v _ { cs := k ++ ['='] } rfl rfl hv, feed_append]
-  have hq2 : feed (({ mode := .dq, cur := some { cs := k ++ ['='] }, out := [W kwExport], bad := false } : LexSt).pushLit v) ['"']
-      = { mode := .unq, cur := some { cs := k ++ '=' :: v }, out := [W kwExport], bad := false } := by
-    simp [feed, step, stepDq, LexSt.pushLit]
-  rw [hq2]
-  exact feed_sep_andand [W kwExport] (k ++ '=' :: v)
+    feed_safe _ ['='] (by simp) (by decide) rfl, feed_append, feed_shlexQuote _ _ rfl]
+  have := feed_sep_andand [W kwExport] (k ++ '=' :: v)
+  simpa [LexSt.pushLit, List.append_assoc] using this
 
 /-! ### interpreting the segments -/
 
